@@ -91,7 +91,7 @@ def run(rep, br, proofs, rng, tier):
         callable_names = [k for k in callable_names if k != "mk"]
         if not callable_names: continue
         seq = gen_seq(rng, callable_names)
-        for mode in ("direct", "callback-pooled", "callback-unpooled", "callback-kept-pooled", "callback-kept-unpooled", "callback-kept-cycled-pooled", "post-pooled", "post-unpooled"):
+        for mode in ("direct", "callback-pooled", "callback-unpooled", "callback-kept-pooled", "callback-kept-unpooled", "callback-kept-cycled-pooled", "callback-pooled-after-abort", "post-pooled", "post-unpooled"):
             if mode.startswith("post") and any(s[0] == "cb" for s in seq) is False and False: pass
             c = mk_case("t%d.%s" % (i, mode), "invoketwin", mode, hexs(defs.encode()), ["seq"] + seq, *[hexs(m.encode()) for m in MODS])
             c["defs"], c["seq"], c["mode"], c["grp"] = defs, seq, mode, i
@@ -118,7 +118,7 @@ def run(rep, br, proofs, rng, tier):
             rep.violation({"property": "C14", "kind": "correspondence", "why": "argument binding model (VM/CallBinding.v) and implementation disagree", "case": c["line"], "impl": c["impl"], "model": c["model"]}, found=False)
     rep.coverage.update({
         "evaluations": len(cases) + len(tcases), "distinct_nontrivial": accepted + compared,
-        "rule": "argument binding: every (0..4 parameters, fixed / variadic, 0..6 arguments, plain / spread with arrays of 0..3 elements or a non-array) through an in-script call, Run and Invoker.Invoke, implementation vs model and entry points against each other on accepted tuples; invoke twins: the host re-uses one argument buffer for all its Invoke calls; generated definitions (counters captured by closures, variadic incl. functions that keep or write through their variadic parameter, throwing, recursive incl. tail and discarded self calls, importing, global-writing, try/finally, nested callbacks, a panicking Go function caught inside the function; recovery enabled) x call sequences executed in-script, through a Go callback during the run (pooled / unpooled Invoker made per call, and one Invoker per function kept for the whole run so that its child VM is re-used, or acquired before and released after every call with every third call made after a Release without a new Acquire) and after the run (pooled / unpooled), comparing every result, error text and the final captured state",
+        "rule": "argument binding: every (0..4 parameters, fixed / variadic, 0..6 arguments, plain / spread with arrays of 0..3 elements or a non-array) through an in-script call, Run and Invoker.Invoke, implementation vs model and entry points against each other on accepted tuples; invoke twins: the host re-uses one argument buffer for all its Invoke calls; generated definitions (counters captured by closures, variadic incl. functions that keep or write through their variadic parameter, throwing, recursive incl. tail and discarded self calls, importing, global-writing, try/finally, nested callbacks, a panicking Go function caught inside the function; recovery enabled) x call sequences executed in-script, through a Go callback during the run (pooled / unpooled Invoker made per call, and one Invoker per function kept for the whole run so that its child VM is re-used, or acquired before and released after every call with every third call made after a Release without a new Acquire; and pooled calls made after another VM was aborted by its host while pooled child VMs ran callbacks for it) and after the run (pooled / unpooled), comparing every result, error text and the final captured state",
         "samples": [cases[5]["line"], tcases[0]["line"][:600]],
         "binding_cases": len(cases), "binding_accepted": accepted, "twin_runs_compared": compared,
         "disagreements": len(dis), "oracle_failures": len(fails)})
